@@ -62,11 +62,11 @@ CHECKS = {
             'trusted: Parser state = its instance fields + caller-owned Cell objects (validated by replay)', 'DESIGN.md section 2 C09'),
     'C18': ('bounded-exhaustive enumeration of sparse layouts x value types read through the real Parser/Executor',
             'all 512 occupancy patterns of a 3x3 window at two offsets (+ covering subsets at (26,9) and (700,40)), single and '
-            'multi-sheet configurations with empty sheets before/between/after and narrower-after-wider sheets, 22 value types '
+            'multi-sheet configurations with empty sheets before/between/after and narrower-after-wider sheets, 26 value types (incl. texts that look like formulas after blanks / an apostrophe) '
             'rotated through positions; every coordinate of the used range, titles and sizes compared with the planted map',
             'trusted: openpyxl writer; normalisation by what xlsx loses (integral floats, dates, 16 digits)', 'DESIGN.md section 2 C18'),
     'C19': ('bounded-exhaustive enumeration of fragment placements and gate-toggle histories',
-            'every placement of one fragment (21 fragments) over 3 sheets x 5-8 columns (incl. Z, AA, AZ) x 3-5 rows, ordered '
+            'every placement of one fragment (21 fragments, also duplicated inside one cell and inside array formulas) over 3 sheets x 5-8 columns (incl. Z, AA, AZ) x 3-5 rows, ordered '
             'pairs of fragments, gate on/off, and all enable/disable/get sequences up to length 5 (6) on one Parser; exception '
             'type, reported keys and fragments compared with the planted positions',
             'trusted: hand-written expected fragments per alphabet entry', 'DESIGN.md section 2 C19'),
@@ -82,14 +82,14 @@ CHECKS = {
             'sign x 9 integer parts x every fractional digit string up to 3 (4 thorough) digits x digit counts -3..6 x ROUND / '
             'ROUNDUP / ROUNDDOWN through the real Parser/Executor with number and digit count as overrides; the <=1 (2) digit '
             'subset also as workbook constants and formula literals; 15-significant-digit extras with digit counts -3..15; '
-            'percent of every grid number and of the integers -2000..2000 from all three sources',
+            'percent of every grid number and of the integers -2000..2000 from all three sources, alone and next to + - * (x%+0, x%-2, 2-x%, x%-x%, x%*1)',
             'trusted: decimal module; repr(double) as the decimal a double stands for', 'DESIGN.md section 2 C16'),
     'C15': ('bounded-exhaustive enumeration of (year, month, day) boxes, day pairs, month offsets and holiday subsets on the real '
             'pipeline against datetime/calendar arithmetic; environment-answer enumeration of the clock for TODAY',
             'DATE over 8 years x months -30..40 x days -70..100 (-400..420 thorough) with YEAR/MONTH/DAY, plus the boundary box as '
             'constants and literals; EDATE/EOMONTH for the days of 2019-2024 x offsets -60..60; DATEDIF D/M/Y/YM for all ordered '
             'day pairs of 2019-2024 (quick: every 5th day + month ends + leap days); NETWORKDAYS for all 4900 ordered pairs of a '
-            '10-week window x 31 holiday subsets; TODAY under 10 injected clock answers (local instant, UTC offset)',
+            '10-week window x 31 holiday subsets (holidays as a bounded area and as a whole column of another sheet); EOMONTH of date-times with a time of day; TODAY under 10 injected clock answers (local instant, UTC offset)',
             'trusted: datetime/calendar modules; the clock shim replaces the datetime module of the generated namespace',
             'DESIGN.md section 2 C15'),
     'C17': ('bounded-exhaustive enumeration of texts x positions/counts on the real pipeline, judged by Python slicing, an '
@@ -97,14 +97,14 @@ CHECKS = {
             'all texts up to length 3 (4 thorough) over {a,B,?,*,~,.,(} x every count/start in -1..len+2 for LEFT, RIGHT, MID and '
             'the LEFT&MID identity (overrides; short texts also as constants and literals); SEARCH over all find texts up to '
             'length 2 (3) over 6 characters x all within texts up to length 3 (4) over 5 characters x every start; & and '
-            'CONCATENATE over all ordered pairs/triples of 12 operand values; VALUE over the decimal grid texts with sign, padding, '
-            'exponent and percent forms',
+            'CONCATENATE over all single operands and ordered pairs/triples of 12 operand values; VALUE over the decimal grid texts with sign, padding, '
+            'exponent and percent forms and over the numbers themselves (VALUE(n), VALUE(n&""))',
             'trusted: re/str of Python; mc/ref/formula.py text forms', 'DESIGN.md section 2 C17'),
     'C14': ('bounded-exhaustive enumeration of key columns x lookup values x match modes x table shapes, INDEX index boxes and '
             'every column number for ADDRESS/COLUMN on the real pipeline, judged by an independent linear search and base-26 routine',
-            'all key columns of length 1..4 over 3 numeric and 3 text keys x 7/4 lookup values x VLOOKUP (widths 1..3, every result '
+            'all key columns of length 1..4 over 3 numeric and 3 text keys (also with a blank, and over {1, 0, TRUE, FALSE}) x 7/4 lookup values x VLOOKUP (widths 1..3, every result '
             'column, 5 range_lookup spellings), MATCH (3), XMATCH (4 judged + 6 explored mode pairs), INDEX(MATCH) as overrides and '
-            '(length<=3) as constants with literal lookup values; INDEX over 5 areas + a two-area form x r,c in -1..4 x area '
+            '(length<=3) as constants with literal lookup values; the same tables as whole columns / with trailing blank rows on a sheet of their own; INDEX over 5 areas, an area taller than the used range of its sheet and a two-area form x r in -1..7, c in -1..4 x area '
             'number 1..3; ADDRESS for 3 rows x every column 1..16384; COLUMN in 6 spellings over the boundary columns (every '
             'column 1..16384 thorough), COLUMN() in 6 columns with and without an entry cell',
             'trusted: planted unique partner values; openpyxl get_column_letter cross-checks the base-26 routine',
@@ -112,13 +112,13 @@ CHECKS = {
     'C11': ('bounded-exhaustive enumeration of cell-content vectors x area shapes x splits x aggregate functions on the real '
             'pipeline, judged by an independent fold and by differential split laws',
             'all content vectors of length 1..4 (5 thorough) over 10 kinds planted into a row, a column, a rectangle and two other '
-            'sheets x 10-13 argument forms (areas, whole column, every split, repeated area, single cells, scalars) x SUM / AVERAGE / '
+            'sheets x 12-15 argument forms (areas, whole column, every split, repeated area, single cells, scalars, bracketed and IF-wrapped expression arguments, an area below the used range) x SUM / AVERAGE / '
             'MIN / MAX / COUNT (+ COUNTBLANK on single areas); AND / OR / IF(AND) over all vectors up to length 4 over 5 truth kinds in '
             '5 forms; vectors up to length 2 as workbook constants',
             'trusted: the 20-line reference fold; dates count as serial numbers (Excel)', 'DESIGN.md section 2 C11'),
     'C12': ('bounded-exhaustive enumeration of criteria-range vectors x criterion forms x conditional-aggregate variants on the real '
             'pipeline, judged by an independent select-then-fold reference',
-            'all criteria-range vectors of length 3 (4 thorough) over 8 (10) cell kinds x 29 criterion forms (numbers, texts, six '
+            'all criteria-range vectors of length 3 (4 thorough) over 8 (10) cell kinds x 33 criterion forms (numbers, logical values and their look-alike numbers, texts, six '
             'operators with numbers, = / <> with texts, operator & cell, criteria read from cells, wildcards ? * ~) x 19 function '
             'variants (SUMIF 2/3 arguments, SUMIFS / COUNTIFS / AVERAGEIFS with one and two pairs, mixed-content targets, SUMIF '
             'corner / short / long sum ranges, five size-mismatch forms); vectors of length 2 as workbook constants',
